@@ -291,11 +291,19 @@ def run_engine(case, cfg, fjm_path, probe_mode='touched', device=None, breakpoin
     obs = {}
     stats = None
     try:
-        stats = fjm_run.run(fjm_path, io_device=dev,
-                            last_ops_debugging_list_length=cfg.get('last_ops'),
-                            profile=(cfg['engine'] == 'featured'),
-                            flat_max_words=cfg.get('flat_max_words'),
-                            breakpoint_handler=breakpoint_handler)
+        if cfg.get('trace'):
+            # the tracing variant of the featured loop (prints every op): selected by show_trace, not by profile
+            import contextlib
+            import io as _io
+            with contextlib.redirect_stdout(_io.StringIO()):
+                stats = fjm_run.run(fjm_path, io_device=dev, last_ops_debugging_list_length=cfg.get('last_ops'),
+                                    show_trace=True, flat_max_words=cfg.get('flat_max_words'))
+        else:
+            stats = fjm_run.run(fjm_path, io_device=dev,
+                                last_ops_debugging_list_length=cfg.get('last_ops'),
+                                profile=(cfg['engine'] == 'featured'),
+                                flat_max_words=cfg.get('flat_max_words'),
+                                breakpoint_handler=breakpoint_handler)
         obs['outcome'] = ('term', str(stats.termination_cause), stats.memory_error_address)
         obs['ops'] = stats.op_counter
         obs['last_ops'] = None if stats.last_ops_addresses is None else list(stats.last_ops_addresses)
